@@ -22,7 +22,7 @@ RULE = (
     "generated and fixture instruments re-encoded with a foreign signature, and with the envelope chunks removed (pre-envelope layout). Oracle: "
     "snapshot equality after save/load and clone; an independent decode of the written instrument record, sample records and envelope chunks "
     "at their documented offsets equals the object's values; legacy conversion computed independently from the record bytes; legacy "
-    "instruments keep their data across save/load. non-trivial = a sample at index > 0, a non-default envelope, or non-zero editor fields"
+    "instruments keep their data across save/load; plus edit histories (load - edit samples / envelopes / map / effect in place, optionally saving in between - save - load). non-trivial = a sample at index > 0, a non-default envelope, or non-zero editor fields"
 )
 ASSUMPTIONS = [
     "instrument record layout (400 bytes) from the struct comments quoted in sampler.py + the offsets in docs/sunvox-file-format.rst; sample record 44 bytes (start_pos at 0x28)",
@@ -30,8 +30,8 @@ ASSUMPTIONS = [
     "legacy mirror fields in the record are 8-bit; values above 255 are not required to be mirrored",
 ]
 REQUIRED_LABELS = {
-    "quick": ["sample_index_gt0", "env_nondefault", "editor_fields", "effect", "note_map", "ctx_synth", "ctx_project", "legacy_signature", "legacy_no_envelopes", "odd_data_length", "points_ge_256"],
-    "thorough": ["sample_index_gt0", "env_nondefault", "editor_fields", "effect", "note_map", "ctx_synth", "ctx_project", "legacy_signature", "legacy_no_envelopes", "odd_data_length", "points_ge_256", "index_ge_256", "slot_127"],
+    "quick": ["edit_history", "sample_index_gt0", "env_nondefault", "editor_fields", "effect", "note_map", "ctx_synth", "ctx_project", "legacy_signature", "legacy_no_envelopes", "odd_data_length", "points_ge_256"],
+    "thorough": ["edit_history", "sample_index_gt0", "env_nondefault", "editor_fields", "effect", "note_map", "ctx_synth", "ctx_project", "legacy_signature", "legacy_no_envelopes", "odd_data_length", "points_ge_256", "index_ge_256", "slot_127"],
 }
 
 
@@ -44,6 +44,10 @@ def plan(tier):
     descs = [{"kind": "random", "examples": per} for _ in range(n)]
     descs.append({"kind": "legacy", "examples": 60 if tier == "quick" else 800})
     descs.append({"kind": "probes"})
+    # second generation: load what was saved, edit it in place (samples, envelopes, map, effect; optionally
+    # saving in between), save and load again
+    for f in ("SamplerEffect", "Sampler", "Sampler"):
+        descs.append({"kind": "edit_history", "focus": f, "examples": per})
     return descs
 
 
@@ -388,7 +392,28 @@ def run_legacy(ctx, case):
     return labels
 
 
+def run_edit_history(ctx, desc):
+    from checks import c06
+
+    def body(case):
+        ctx.case()
+        try:
+            labels, changed = c06.run_case(ctx, case)
+        except PropertyViolation as v:
+            raise PropertyViolation("C16.edit_history." + v.sub_oracle.split(".", 1)[1], v.detail, key="C16.edit_history." + v.key.split(".", 1)[1])
+        ctx.label("edit_history", *[l for l in labels if l in ("saved_before_edit", "embedded_edit", "sampler_edit", "metamodule_edit")])
+        if changed:
+            ctx.mark_nontrivial(case)
+        if len(repr(case)) < 1000:
+            ctx.sample(case)
+
+    run_property(ctx, c06.edit_case(focus=desc["focus"]), body, desc["examples"], tag="edit_history", bucket="edit_history")
+
+
 def run_shard(ctx, desc):
+    if desc["kind"] == "edit_history":
+        run_edit_history(ctx, desc)
+        return
     k = desc["kind"]
     if k == "legacy":
 
@@ -430,6 +455,11 @@ def run_shard(ctx, desc):
 
 
 def replay(ctx, doc):
+    if doc["recipe"].get("tag") == "edit_history":
+        from checks import c06
+
+        c06.run_case(ctx, doc["recipe"]["case"])
+        return
     r = doc["recipe"]
     if r.get("tag") == "legacy":
         run_legacy(ctx, r["case"])
